@@ -726,6 +726,8 @@ def execute(text, placeholders, imem_names, st, addr, length, block_limit=None):
                 st.need(page_ok)
                 tgt = (bv(addr) & 0xF0000) | (d.val & M16)
         elif isinstance(d, OReg):
+            if d.name not in R3:
+                raise NotSpecified("JP with a register that is not r3")
             tgt = st.get(d.name)
         elif isinstance(d, OIMem):
             a = d.addr(st)
@@ -735,6 +737,7 @@ def execute(text, placeholders, imem_names, st, addr, length, block_limit=None):
             raise SpecError("jump operand")
         st.r["PC"] = z3.If(taken, tgt & M20, nxt)
         st.branch = (cond, tgt & M20)
+        st.taken = taken
         return st
     if mn == "JPF":
         d = one()
